@@ -57,10 +57,27 @@ def nOut : List Ev → Nat
   | _ :: rest => nOut rest
 
 /-- a drain frame holds a non-empty ready batch only in its `exec` phase -/
-def readyOk (fixed : Bool) : List Frame → Prop
+def readyOk (fixed : Bool) (rg : Bool) : List Frame → Prop
   | [] => True
-  | .drain ph r :: rest => (ph ≠ .exec → r = []) ∧ (fixed = true → ph ≠ .final) ∧ readyOk fixed rest
-  | _ :: rest => readyOk fixed rest
+  | .drain ph r :: rest =>
+    (ph ≠ .exec → r = []) ∧ (fixed = true → ph ≠ .final) ∧ (ph = .abort → rg = true) ∧ readyOk fixed rg rest
+  | _ :: rest => readyOk fixed rg rest
+
+theorem readyOk_mono (fixed : Bool) (st : List Frame) (h : readyOk fixed false st) : readyOk fixed true st := by
+  induction st with
+  | nil => trivial
+  | cons f fs ih => cases f <;> simp_all [readyOk]
+
+theorem readyOk_weaken (fixed : Bool) (a b : Bool) (st : List Frame) (h : readyOk fixed a st) (hab : a = true → b = true) :
+    readyOk fixed b st := by
+  cases a <;> cases b <;> simp_all
+  exact readyOk_mono fixed st h
+
+theorem thStep_raised_mono (fixed : Bool) (tr : Tr) (g : Glob) (th : Th) :
+    tr.raisedG = true → (thStep fixed tr g th).1.raisedG = true := by
+  unfold thStep
+  repeat' split
+  all_goals simp_all
 
 theorem enqueue_length (q : List Item) (n : Item) : (enqueue q n).length = q.length + 1 := by
   induction q with
@@ -70,23 +87,26 @@ theorem enqueue_length (q : List Item) (n : Item) : (enqueue q n).length = q.len
 theorem take_drop_length {α} (p : α → Bool) (q : List α) : (q.takeWhile p).length + (q.dropWhile p).length = q.length := by
   rw [← List.length_append, List.takeWhile_append_dropWhile]
 
-theorem thStep_readyOk (fixed : Bool) (tr : Tr) (g : Glob) (th : Th) (h : readyOk fixed th.stack) :
-    readyOk fixed (thStep fixed tr g th).2.2.stack := by
+theorem thStep_readyOk (fixed : Bool) (tr : Tr) (g : Glob) (th : Th) (h : readyOk fixed tr.raisedG th.stack) :
+    readyOk fixed (thStep fixed tr g th).1.raisedG (thStep fixed tr g th).2.2.stack := by
   unfold thStep
   repeat' split
   all_goals simp_all [readyOk]
   all_goals (try (cases fixed <;> simp_all))
+  all_goals (try (cases hr : tr.raisedG <;> simp_all [readyOk_mono]))
 
 /-- conservation of items for the FIXED exit path: enqueued = taken out + ready + queued -/
-theorem thStep_cons (tr : Tr) (g : Glob) (th : Th) (h : readyOk true th.stack) :
+theorem thStep_cons (tr : Tr) (g : Glob) (th : Th) (h : readyOk true tr.raisedG th.stack)
+    (hnr : (thStep true tr g th).1.raisedG = false) :
     nEnq (thStep true tr g th).2.2.log + (nOut th.log + (readyOf th.stack).length) + tr.queue.length
       = nEnq th.log + (nOut (thStep true tr g th).2.2.log + (readyOf (thStep true tr g th).2.2.stack).length)
         + (thStep true tr g th).1.queue.length := by
+  revert hnr
   unfold thStep
   repeat' split
   all_goals simp_all [nEnq, nOut, readyOf, readyOk, enqueue_length]
   all_goals (try omega)
-  · have := take_drop_length (isDue g.clock) tr.queue; omega
+  all_goals (try (have := take_drop_length (isDue g.clock) tr.queue; omega))
 
 
 /-! ## system level: several threads, several trampolines -/
@@ -99,8 +119,8 @@ structure MInv (fixed : Bool) (s : Sys) : Prop where
   /-- per trampoline: #drain loops active over all threads = (not idle) -/
   mutex : ∀ (k : Nat) (tr : Tr), s.trs[k]? = some tr → sumBy (drainsOn k) s.ths = (!tr.idle).toNat
   idleEmpty : ∀ (k : Nat) (tr : Tr), s.trs[k]? = some tr → tr.idle = true → tr.queue = []
-  rok : ∀ p ∈ s.ths, readyOk fixed p.2.stack
-  cons : fixed = true → ∀ (k : Nat) (tr : Tr), s.trs[k]? = some tr →
+  rok : ∀ p ∈ s.ths, ∀ (tr : Tr), s.trs[p.1]? = some tr → readyOk fixed tr.raisedG p.2.stack
+  cons : fixed = true → ∀ (k : Nat) (tr : Tr), s.trs[k]? = some tr → tr.raisedG = false →
     sumBy (enqOn k) s.ths = sumBy (outOn k) s.ths + tr.queue.length
 
 theorem Sys.step_eq (fixed : Bool) (s : Sys) (i dt k : Nat) (th : Th) (tr : Tr)
@@ -155,11 +175,20 @@ theorem minv_step (fixed : Bool) (s : Sys) (i dt : Nat) (h : MInv fixed s) : MIn
           exact thStep_idle_empty fixed tr g0 th (idleEmpty k' tr hk)
         · simp only [List.getElem?_set_ne (Ne.symm hkk)] at hk'
           exact idleEmpty k' tr' hk'
-      · intro p hp
+      · intro p hp tr2 htr2
+        have hmono := thStep_raised_mono fixed tr g0 th
         rcases List.mem_or_eq_of_mem_set hp with hp | hp
-        · exact rok p hp
-        · subst hp; exact thStep_readyOk fixed tr g0 th (rok _ hmem)
-      · intro hf k' tr' hk'
+        · by_cases hkk : p.1 = k
+          · rw [hkk, List.getElem?_set_self hklt] at htr2
+            cases htr2
+            exact readyOk_weaken fixed _ _ _ (rok p hp tr (by rw [hkk]; exact hk)) hmono
+          · rw [List.getElem?_set_ne (fun e => hkk e.symm)] at htr2
+            exact rok p hp tr2 htr2
+        · subst hp
+          simp only [List.getElem?_set_self hklt, Option.some.injEq] at htr2
+          subst htr2
+          exact thStep_readyOk fixed tr g0 th (rok _ hmem tr hk)
+      · intro hf k' tr' hk' hnr'
         subst hf
         by_cases hkk : k' = k
         · subst hkk
@@ -168,15 +197,19 @@ theorem minv_step (fixed : Bool) (s : Sys) (i dt : Nat) (h : MInv fixed s) : MIn
           have hE := sumBy_set (enqOn k') s.ths i (k', th) (k', (thStep true tr g0 th).2.2) hi
           have hO := sumBy_set (outOn k') s.ths i (k', th) (k', (thStep true tr g0 th).2.2) hi
           simp only [enqOn, outOn, if_true] at hE hO
-          have hc := thStep_cons tr g0 th (rok _ hmem)
-          have := cons rfl k' tr hk
+          have hnr0 : tr.raisedG = false := by
+            cases hr : tr.raisedG
+            · rfl
+            · have := thStep_raised_mono true tr g0 th hr; rw [this] at hnr'; cases hnr'
+          have hc := thStep_cons tr g0 th (rok _ hmem tr hk) hnr'
+          have := cons rfl k' tr hk hnr0
           dsimp only; omega
         · simp only [List.getElem?_set_ne (Ne.symm hkk)] at hk'
           have hE := sumBy_set (enqOn k') s.ths i (k, th) (k, (thStep true tr g0 th).2.2) hi
           have hO := sumBy_set (outOn k') s.ths i (k, th) (k, (thStep true tr g0 th).2.2) hi
           have hne : ¬ (k = k') := fun e => hkk e.symm
           simp only [enqOn, outOn, hne, if_false] at hE hO
-          have := cons rfl k' tr' hk'
+          have := cons rfl k' tr' hk' hnr'
           dsimp only; omega
 
 
@@ -207,11 +240,11 @@ theorem minv_init (fixed : Bool) (ntr : Nat) (progs : List (Nat × List Op)) (cl
     · rfl
     · intro k' p; simp [drainsOn, nDrain]
   · intro k tr hk _; rw [htr k tr hk]
-  · intro p hp
+  · intro p hp tr _
     simp only [Sys.init, List.mem_map] at hp
     obtain ⟨⟨k, q⟩, _, rfl⟩ := hp
     simp [readyOk]
-  · intro _ k tr hk
+  · intro _ k tr hk _
     rw [htr k tr hk]
     simp only [Sys.init]
     rw [hz, hz]
